@@ -184,6 +184,8 @@ def cert_K1(repo):
 # --------------------------------------------------------------------------
 class Accum(Walker):
     """Collects `name += e` / `name -= e` with the path state."""
+    unroll_literal_loops = True
+
     def __init__(self, name):
         super().__init__()
         self.name = name
@@ -241,6 +243,7 @@ def cert_K2_fourterm(repo):
     syms = {n: sp.Symbol(n, real=True) for n in 'abcd'}
     bodies = []
     found = set()
+    terms_raw = []
     where = fi.where(gnode)
     for sgn, expr, state, st in inner_terms:
         L = Lifter(fi.module, dict(syms), call_hook=sumsq_hook)
@@ -267,8 +270,7 @@ def cert_K2_fourterm(repo):
                   construct='double_time_integrated_kernel: term not a '
                   'function of the difference')
             continue
-        found.add((p.name, q.name, sgn))
-        bodies.append((inst, loc, ez))
+        terms_raw.append((p.name, q.name, sgn, inst, loc, ez))
         # guard: path facts <=> p > q (given entry facts)
         lin = state.lin(ast.parse('%s - %s' % (p.name, q.name),
                                   mode='eval').body)
@@ -281,8 +283,24 @@ def cert_K2_fourterm(repo):
               '(sound=%s, complete=%s)' % (p, q, p, q, sound, complete),
               construct='double_time_integrated_kernel: guard of term '
               '(%s,%s)' % (p, q))
+    # absolute sign of each term: the antiderivative F is the one with
+    # F'' = -G; a term whose body is -F counts with the opposite sign
+    G_ = heat_kernel(Z, R2)
+    for pn, qn, sgn, inst, loc, ez in terms_raw:
+        st_p, _ = check_identity(sp.diff(ez, Z, 2) + G_, random.Random(3))
+        if st_p == 'proved':
+            eff, body = sgn, ez
+        else:
+            st_m, _ = check_identity(sp.diff(ez, Z, 2) - G_,
+                                     random.Random(3))
+            if st_m == 'proved':
+                eff, body = -sgn, -ez
+            else:
+                eff, body = sgn, ez
+        found.add((pn, qn, eff))
+        bodies.append((inst, loc, body))
     c.add('R-fourterm', 'inclusion-exclusion set', where,
-          found == REQUIRED_TERMS and len(inner_terms) == 4,
+          found == REQUIRED_TERMS and len(terms_raw) == 4,
           'terms found %s; required {(b,d,+),(b,c,-),(a,c,+),(a,d,-)} = '
           'sign(p)*sign(q) with + for the upper end point' % sorted(found),
           construct='double_time_integrated_kernel: four-term set')
@@ -583,7 +601,13 @@ def lifted_F(prog):
     if len(ts) != 2:
         raise AnalysisError('%s: first term is not a function of two time '
                             'end points' % fi.where())
-    return sgn * e.subs(ts[0], ts[1] + Z)
+    F = sgn * e.subs(ts[0], ts[1] + Z)
+    # normalise the sign by the defining identity F'' = -G
+    st_m, _ = check_identity(sp.diff(F, Z, 2) - heat_kernel(Z, R2),
+                             random.Random(3))
+    if st_m == 'proved':
+        F = -F
+    return F
 
 
 def _nonzero_return(prog, file, name, seeds=()):
